@@ -181,7 +181,7 @@ Lemma count_one_unique f a b : count_if f = 1 -> a < 64 -> b < 64 -> f a = true 
 Proof.
   intros Hc Ha Hb Hfa Hfb. destruct (N.eq_dec a b) as [E|E]; [exact E|exfalso].
   pose proof (filter_two_le f all_sq a b all_sq_nodup (proj2 (in_all_sq a) Ha) (proj2 (in_all_sq b) Hb) E Hfa Hfb) as H.
-  unfold count_if in Hc. lia.
+  unfold count_if in Hc. revert H Hc. generalize (length (filter f all_sq)). intros n H Hc. lia.
 Qed.
 
 Lemma king_sq_unique p c k : kings p c = 1 -> k < 64 -> has p k King c = true -> king_sq p c = Some k.
